@@ -5,13 +5,13 @@ import BB.Proofs.ErrorHandlingOps
 namespace BB.ErrorHandling
 
 /-- A CAS buffer carrying digest `d`. -/
-def IsCas (d : Digest) (b : Buf) : Prop := ∃ s, b = .chunks d s ∨ b = .reader d s
+def IsCas (d : Digest) (b : Buf) : Prop := ∃ s, b = .chunks d s ∨ b = .reader d s ∨ b = .clone d s
 
 theorem IsCas.size_of_good {d : Digest} {D : Bytes} {b : Buf} (hc : IsCas d b) (g : Good D b) : d.size = D.length := by
-  obtain ⟨s, rfl | rfl⟩ := hc <;> exact g.1
+  obtain ⟨s, rfl | rfl | rfl⟩ := hc <;> exact g.1
 
 theorem IsCas.digest_of_sealed {d d' : Digest} {D : Bytes} {b : Buf} (hc : IsCas d' b) (g : Sealed d D b) : d' = d := by
-  obtain ⟨s, rfl | rfl⟩ := hc <;> exact g
+  obtain ⟨s, rfl | rfl | rfl⟩ := hc <;> exact g
 
 /-- The initial state of `ToReader`. -/
 def vr0 (base : Buf) (d : Digest) (h : List Resp) : VR :=
